@@ -2,7 +2,10 @@ package main
 
 import (
 	"encoding/xml"
+	"fmt"
 	"math"
+	"regexp"
+	"strings"
 	"time"
 
 	"mellium.im/xmpp/bin"
@@ -236,6 +239,64 @@ func projHashOut(h crypto.HashOutput) pHashOut { return pHashOut{Hash: uint64(h.
 // seconds, nearest, ties to even (what max-age can carry).
 func roundSeconds(d time.Duration) int64 { return int64(math.RoundToEven(d.Seconds())) }
 
+var tzoRE = regexp.MustCompile(`^(Z|[+-][0-9][0-9]:[0-9][0-9])$`)
+
+// xtimeDirect: XEP-0202 stated on the tokens: <tzo/> is a XEP-0082 time zone
+// definition (Z or a sign, two digits of hours, a colon, two digits of minutes)
+// and <utc/> together with it denotes the original instant and the original zone
+// offset in whole minutes. The texts are read here by hand, not with the
+// library's decoder and not with the layout the library formats with.
+func xtimeDirect(v interface{}, raw []*Tree) (string, string) {
+	t := v.(xtime.Time).Time
+	if len(raw) != 1 {
+		return "tokenreader/tzo:shape", "not one element"
+	}
+	var tzo, utc string
+	n := 0
+	for _, k := range raw[0].Kids {
+		if k.Kind != 0 {
+			continue
+		}
+		switch k.Name.Local {
+		case "tzo":
+			tzo = k.directText()
+			n++
+		case "utc":
+			utc = k.directText()
+			n++
+		}
+	}
+	if n != 2 {
+		return "tokenreader/tzo:shape", fmt.Sprintf("expected one <tzo/> and one <utc/>, found %d", n)
+	}
+	if !tzoRE.MatchString(tzo) {
+		return "tokenreader/tzo:not-a-time-zone-definition", fmt.Sprintf("<tzo>%s</tzo> is not Z or (+|-)hh:mm (zone offset %d s)", tzo, tmOf(t).Off)
+	}
+	min := 0
+	if tzo != "Z" {
+		h := int(tzo[1]-'0')*10 + int(tzo[2]-'0')
+		m := int(tzo[4]-'0')*10 + int(tzo[5]-'0')
+		if m > 59 {
+			return "tokenreader/tzo:not-a-time-zone-definition", fmt.Sprintf("<tzo>%s</tzo>: minutes out of range", tzo)
+		}
+		min = h*60 + m
+		if tzo[0] == '-' {
+			min = -min
+		}
+	}
+	if want := int(tmOf(t).Off) / 60; min != want {
+		return "tokenreader/tzo:wrong-offset", fmt.Sprintf("<tzo>%s</tzo> denotes %d minutes, the zone offset is %d minutes (%d s)", tzo, min, want, tmOf(t).Off)
+	}
+	u, err := time.Parse(time.RFC3339Nano, utc)
+	if err != nil || !strings.HasSuffix(utc, "Z") {
+		return "tokenreader/utc:not-utc", fmt.Sprintf("<utc>%s</utc> is not a UTC date-time: %v", utc, err)
+	}
+	if !u.Equal(t) {
+		return "tokenreader/utc:wrong-instant", fmt.Sprintf("<utc>%s</utc> is not the instant %s", utc, t.UTC().Format(time.RFC3339Nano))
+	}
+	return "", ""
+}
+
 func allTypes() []*typeDesc {
 	var ts []*typeDesc
 	add := func(t *typeDesc) { ts = append(ts, t) }
@@ -463,11 +524,10 @@ func allTypes() []*typeDesc {
 		},
 		// the zone offset is carried in whole minutes
 		norm: func(p interface{}) interface{} { t := p.(TM); t.Off = t.Off / 60 * 60; return t },
-		oracle: func(v interface{}, o *orTab) {
-			o.tfmt(lUTCNano, v.(xtime.Time).Time)
-			o.tfmt(lTzo, v.(xtime.Time).Time)
-		},
+		// the tzo text is computed by the model (format_tzo), not handed to it
+		oracle: func(v interface{}, o *orTab) { o.tfmt(lUTCNano, v.(xtime.Time).Time) },
 		timeOK: func(v interface{}) bool { return timeInRange(v.(xtime.Time).Time) },
+		direct: xtimeDirect,
 		seeds:  []string{`<time xmlns='urn:xmpp:time'><tzo>-06:00</tzo><utc>2006-12-19T17:58:35Z</utc></time>`},
 	})
 	add(&typeDesc{name: "forward.Forwarded", codec: "forwarded_c", level: "B", both: true, needs: needs{jid: true, time: true},
